@@ -99,6 +99,7 @@ var specs = map[string]*propSpec{
 	"C11": c11Spec(),
 	"C17": c17Spec(),
 	"C02": c02Spec(),
+	"C12": c12Spec(),
 	"C05": chainSpec("C05", "exploration"),
 }
 
@@ -176,5 +177,25 @@ func c02Spec() *propSpec {
 			"the chain arm reports only script-related disagreements under C02 (a refused valid block whose error is a script failure; a connected block with a corrupted signature)",
 		},
 		ExpectProbes: []string{"compared_with_reference_legacy", "compared_with_reference_bip143", "compared_with_reference_bip341", "fresh_object_only_tapscript"},
+	}
+}
+
+func c12Spec() *propSpec {
+	return &propSpec{
+		ID: "C12", Harness: "poolsim", Level: "exploration", Chunk: 5, Workers: 16,
+		Quick:    tierParams{Runs: 320, BudgetS: 75, PerRunS: 300, RaceRuns: 0, ShrinkAttempts: 120, ShrinkS: 120},
+		Thorough: tierParams{Runs: 16000, BudgetS: 1200, PerRunS: 900, RaceRuns: 0, ShrinkAttempts: 400, ShrinkS: 400},
+		Rule: "one case = pool options (full/opt-in RBF, expiry 1-14 days, reject-ring size, fee floor, block-commit flag, optional eviction scenario of 125 transactions of ~100 kB) + 4-120 operations, each with its own seed: submit a transaction through the peer / local / trusted path (valid, child and diamond of unconfirmed parents, double spend with lower and higher fee, orphan before parent and the parent later, corrupted signature, overspend, immature coinbase, duplicate of a pooled/rejected/mined transaction, same input twice, non-final), a descendant chain of up to 130 followed by a replacement of its root, mine a block from the pool's own fee-ordered listing / with unknown and conflicting transactions / empty, reorganise 1-3 blocks, clock jumps of 1 s - 16 days followed by Tick(), reject-ring resize, save + reload. After every operation the stated invariants are recomputed from the exported pool state and the reference ledger; a block assembled from a listing prefix must be valid per the ledger and accepted by the node. distinct_nontrivial = distinct (schedule-trace hash, final state).",
+		Components: map[string][]string{
+			"real":      append([]string{"client/txpool (instrumented)", "client/common (instrumented; configuration through CFG + Reset())"}, chainComponents["real"]...),
+			"simulated": append([]string{"peers and the local user submitting transactions", "miner building blocks from the node's listing", "clock jumps"}, chainComponents["simulated"]...),
+			"restated":  {"client/main.go: blockMined/blockUndone callbacks -> txpool.BlockMined/BlockUndone, update of common.Last and script flags after each block, optional BlockCommitInProgress bracket", "network.ParseTxNet: NeedThisTxExt + TransactionsPending + HandleNetTx"},
+		},
+		Assumptions: []string{
+			"acceptance policy (fee floors, which of two conflicting transactions wins, standardness) is not part of the oracle",
+			"transactions are always created by the harness's signer; script validity label comes from it",
+			"txpool keeps its expiry timer in an unexported package variable initialised from the real clock: the simulated clock therefore starts in 2030+",
+		},
+		ExpectProbes: []string{"tx_accepted", "unconfirmed_child_accepted", "replacement_accepted", "orphan_before_parent", "block_from_pool_listing", "block_connected_with_txs", "blocks_undone", "expired_or_evicted_on_tick", "save_load", "rbf_gt_100", "pool_checked_nonempty"},
 	}
 }
